@@ -17,6 +17,7 @@ func checkC11(p *Prog, r *Report) {
 	c11Errors(p, r)
 	c11Flags(p, r)
 	c11TableKeys(p, r)
+	c11PlotLookup(p, r)
 	c11Result(p, r, "C11.R2")
 	dispatcherRule(p, r, "C11.R2b")
 	c11Loops(p, r)
